@@ -164,7 +164,8 @@ class C04(Check):
                 ops.append(["set_samplers", calsim.gen_lineup(rng, n=rng.randint(1, 3))])
                 ops.append(["calibrate", rng.randint(1, 2)])
         env = {"folder": True, "n_jobs": 1, "verbose": rng.random() < 0.3,
-               "sched": {"mode": rng.choice(["random", "pct", "mainfirst", "othersfirst"]), "seed": rng.randrange(2 ** 31), "p_line": 0.0}}
+               }
+        env["sched"], env["trace_lines"] = calsim.gen_sched(rng, cfg["scheduler"]["kind"] == "rl")
         return {"engine": "calsim", "config": cfg, "env": env, "ops": ops, "sim_seed": rng.randrange(2 ** 31)}
 
     def run(self, scn):
